@@ -830,7 +830,9 @@ func genJoin(g GenCtx, kind string, overrun bool) *Join {
 	sels := []map[string]string{nil, {"app": "a"}, {"app": "b"}, {"app": "a", "tier": "x"},
 		// match expressions (label-selector kinds; plain-map kinds ignore them): selectors
 		// made only of negative requirements select objects that lack the key
-		{"_expr": "tier notin x"}, {"_expr": "!tier"}, {"app": "a", "_expr": "tier notin y"}, {"_expr": "app in a|b;!App"}}
+		{"_expr": "tier notin x"}, {"_expr": "!tier"}, {"app": "a", "_expr": "tier notin y"}, {"_expr": "app in a|b;!App"},
+		// fields that are not part of the selection rule: a workload scaled to zero still selects
+		{"app": "a", "_replicas": "0"}, {"app": "b", "_replicas": "0"}, {"app": "a", "_replicas": "3"}}
 	ns := func() string { return pick(rng, "n1", "n1", "n2") }
 	svcName := func() string { return pick(rng, "svc1", "svc2", "svc3") }
 	refs := func() []string {
